@@ -202,6 +202,33 @@ pub fn tamperings(r: &mut Rng, h: &Honest, other: Option<&Honest>, positions: us
             let spaced = serde_json::to_string_pretty(&h.pres.payload().unwrap()).unwrap();
             out.push(mk("payload-respaced", h, with_jwt(h, format!("{}.{}.{}", parts[0], b64(spaced.as_bytes()), parts[2])), honest_resolver.clone(), kb));
         }
+        // TWO edits at once: a forged payload in a spelling only a lenient decoder reads, with a signature part in a spelling no
+        // decoder reads (or a short / empty / foreign one): each half alone is rejected, and so is the pair
+        if let Some(mut pl) = h.pres.payload() {
+            if let Some(m) = pl.as_object_mut() {
+                m.insert("role".into(), json!("admin"));
+            }
+            let strict = b64_json(&pl);
+            let text = serde_json::to_string(&pl).unwrap();
+            use base64::Engine;
+            let padded = base64::engine::general_purpose::URL_SAFE.encode(text.as_bytes());
+            let standard = base64::engine::general_purpose::STANDARD.encode(text.as_bytes());
+            let standard_nopad = base64::engine::general_purpose::STANDARD_NO_PAD.encode(text.as_bytes());
+            let payloads = [("strict", strict.clone()), ("padded", padded.clone()), ("padded-twice", format!("{}=", padded)), ("standard-alphabet", standard), ("standard-alphabet-unpadded", standard_nopad),
+                            ("with-a-blank", format!("{} ", strict)), ("with-a-line-break", format!("{}\n", strict)), ("plus-appended", format!("{}+", strict)), ("slash-appended", format!("{}/", strict))];
+            let sig = parts[2];
+            let sigs = [("as-signed", sig.to_string()), ("one-character-cut", sig[..sig.len().saturating_sub(1)].to_string()), ("two-characters-cut", sig[..sig.len().saturating_sub(2)].to_string()), ("three-characters-cut", sig[..sig.len().saturating_sub(3)].to_string()),
+                        ("empty", String::new()), ("padded", format!("{}=", sig)), ("not-base64", format!("{}!", &sig[..sig.len().saturating_sub(1)])), ("with-a-blank", format!("{} ", sig)), ("standard-alphabet-character", format!("{}+", &sig[..sig.len().saturating_sub(1)])),
+                        ("a-multibyte-character", format!("{}\u{e9}", &sig[..sig.len().saturating_sub(1)])), ("one-character", "A".to_string())];
+            for (pn, p) in payloads.iter() {
+                for (sn, sg) in sigs.iter() {
+                    if !all_positions && r.chance(2, 3) {
+                        continue;
+                    }
+                    out.push(mk(&format!("forged-payload-{}-with-signature-{}", pn, sn), h, with_jwt(h, format!("{}.{}.{}", parts[0], p, sg)), honest_resolver.clone(), kb && r.chance(1, 2)));
+                }
+            }
+        }
         // signature stripped / truncated
         out.push(mk("signature-stripped", h, with_jwt(h, format!("{}.{}.", parts[0], parts[1])), honest_resolver.clone(), kb));
         out.push(mk("signature-missing-part", h, with_jwt(h, format!("{}.{}", parts[0], parts[1])), honest_resolver.clone(), kb));
@@ -308,6 +335,17 @@ pub fn honest_pairs(ctx: &mut Ctx, n: usize) -> Vec<(Honest, Option<Honest>)> {
     for i in 0..n {
         let mut r = ctx.rng.fork(1000 + i as u64);
         let mut f = gen_flow(&mut r, &cfg);
+        // the registered time claims near the verifier's clock, inside the window (a tampered token is rejected whatever they say)
+        if let Some(m) = f.issue.claims.as_object_mut() {
+            let now = now();
+            match i % 6 {
+                1 => { m.insert("nbf".into(), json!(now + 30)); }
+                2 => { m.insert("nbf".into(), json!(now - 10)); m.insert("iat".into(), json!(now + 200)); }
+                3 => { m.insert("exp".into(), json!(now + 600)); m.insert("nbf".into(), json!(now + 45)); }
+                4 => { m.insert("iat".into(), json!(now - 5)); m.insert("exp".into(), json!(now + 120)); }
+                _ => {}
+            }
+        }
         // every algorithm family takes part whatever the seed draws
         match i % 12 {
             3 => { f.issue.key = KeyId::IssuerRsa; f.issue.alg = Some("RS256".into()); }
